@@ -241,15 +241,39 @@ def run(prog, rep):
         okj, msg = False, "join does not wait natively on its own handle"
     else:
         wb, wi, wc = waits[0]
-        got = 0
-        for b, i, r in jn.returns():
-            e = strip_casts(r.get("e"))
-            if e is not None and e["k"] == "member" and e["field"] == "ret_code":
-                got += 1
-                if not jn.pos_dominates((wb.id, wi), (b.id, i)):
-                    okj, msg = False, "line %d: ret_code is returned on a path that did not wait for the thread" % line(r)
-            elif cv(r.get("e")) is None:
-                okj, msg = False, "line %d: join returns %s" % (line(r), show(r.get("e")))
+        # path by path: a path that waited returns the handle's ret_code (directly or through a local it was copied into after
+        # the wait), a path that did not returns a constant
+        got = [0]
+        jbad = []
+
+        def sj(st, b, i, stmt):
+            facts, waited = st
+            if any(c is wc for c in calls(stmt)):
+                waited = True
+            if stmt["k"] == "ret":
+                e = strip_casts(stmt.get("e"))
+                isrc = e is not None and e["k"] == "member" and e["field"] == "ret_code"
+                if not isrc and e is not None and e["k"] == "ref":
+                    isrc = any(fk == e["name"] and fop == "=:" and str(fv).endswith("->ret_code") for (fk, fop, fv) in facts)
+                const = cv(stmt.get("e")) if cv(stmt.get("e")) is not None else guards.eval_const(stmt.get("e"), facts)
+                if isrc:
+                    got[0] += 1
+                    if not waited:
+                        jbad.append("line %d: ret_code is returned on a path that did not wait for the thread" % line(stmt))
+                elif waited:
+                    jbad.append("line %d: join waited for the thread and returns %s instead of its exit code" % (line(stmt), show(stmt.get("e")) if const is None else const))
+                elif const is None:
+                    jbad.append("line %d: join returns %s" % (line(stmt), show(stmt.get("e"))))
+                return []
+            return [(guards.transfer(facts, stmt), waited)]
+
+        def ej(st, b, to, on):
+            f2 = guards.edge_assume(st[0], b, on)
+            return None if f2 is None else (f2, st[1])
+        Flow(jn, [(guards.EMPTY, False)], sj, ej).run()
+        if jbad:
+            okj, msg = False, jbad[0]
+        got = got[0]
         # any read of ret_code before the wait (e.g. cached in a local) is stale
         for b, i, n, s in member_nodes(jn, "ret_code"):
             if not jn.pos_dominates((wb.id, wi), (b.id, i)) or (b.id == wb.id and i <= wi):
